@@ -163,7 +163,7 @@ OvSkip(ev) ==
   /\ live' = [b \in LiveIds \ {ev.id} |-> live[b]]
   /\ origin' = [b \in DOMAIN origin \ {ev.id} |-> origin[b]]
   /\ foreign' = foreign \ {ev.id}
-  /\ UNCHANGED <<heaps, dflt, backing, flux, arenas, osfail, cfg, pcm, ocfg>>
+  /\ UNCHANGED <<heaps, dflt, backing, flux, arenas, osfail, cfg, aux, ocfg>>
 
 \* a block that a broken pair left behind (the failure itself was reported where it happened): the driver drops it
 OvAbandon(ev) ==
@@ -172,26 +172,26 @@ OvAbandon(ev) ==
   /\ live' = [b \in LiveIds \ {ev.id} |-> live[b]]
   /\ origin' = [b \in DOMAIN origin \ {ev.id} |-> origin[b]]
   /\ foreign' = foreign \ {ev.id}
-  /\ UNCHANGED <<heaps, dflt, backing, flux, arenas, osfail, cfg, pcm, ocfg>>
+  /\ UNCHANGED <<heaps, dflt, backing, flux, arenas, osfail, cfg, aux, ocfg>>
 
 \* a pointer the program sees inside a library-managed object (container storage ...): only its provenance is demanded
 OvSeen(ev) ==
   /\ step' = step + 1
   /\ GD("ServedByMimalloc", ev.op, ev.inheap = 1)
-  /\ UNCHANGED <<live, heaps, dflt, backing, flux, arenas, osfail, cfg, pcm, origin, foreign, ocfg>>
+  /\ UNCHANGED <<live, heaps, dflt, backing, flux, arenas, osfail, cfg, aux, origin, foreign, ocfg>>
 
 \* start of one (allocating, releasing) pair of the matrix
 OvPair(ev) ==
   /\ step' = step + 1
   /\ GD("PairStartsClean", ev.ae, LiveIds = {})
   /\ GD("PairInMatrix", ev.ae \o "->" \o ev.re, ev.ae \in AllocE /\ ev.re \in ReleaseE \cup {"none"})
-  /\ UNCHANGED <<live, heaps, dflt, backing, flux, arenas, osfail, cfg, pcm, origin, foreign, ocfg>>
+  /\ UNCHANGED <<live, heaps, dflt, backing, flux, arenas, osfail, cfg, aux, origin, foreign, ocfg>>
 
 OvCfg(ev) ==
   /\ step' = step + 1
   /\ ocfg' = ev
   /\ GD("OverrideActive", ev.mode, ev.have_mi = 1)
-  /\ UNCHANGED <<live, heaps, dflt, backing, flux, arenas, osfail, cfg, pcm, origin, foreign>>
+  /\ UNCHANGED <<live, heaps, dflt, backing, flux, arenas, osfail, cfg, aux, origin, foreign>>
 
 \* ---------------------------------------------------------------- invariants
 OriginTracksLive == DOMAIN origin = LiveIds \/ \E t \in DOMAIN flux : flux[t] # NoCall
